@@ -350,6 +350,34 @@ def check_lookups(chk, prog, env, model, dtor='__item_free'):
              n, bad, floor=4)
 
 
+def check_provider_tag(chk, prog, env, model, rulename='C16.provider-tag'):
+    """the destructor decides by item->provider whose release routine runs; the destructor rule assumes provider-made items carry the tag
+    of the routine that can release them (the shared OpenSSL importer's), whatever provider is current: established here at every
+    successful exit of every asymmetric importer"""
+    from props import c08
+    import effects
+    eff = effects.Effects(prog)
+    OSSL = env.E['JWT_CRYPTO_OPS_OPENSSL']
+    n = 0
+    bad = 0
+    for f in ('process_rsa', 'process_ec', 'process_eddsa'):
+        for (unit, fn) in sorted(eff.ops_fields.get(f, ())):
+            rule, it, res, item = c08.run_importer(prog, env, model, unit, fn)
+            for s_, rv in res:
+                if not (isinstance(rv, Int) and rv.v == 0) or not isinstance(s_.mem.get((item, 'provider_data')), (Ref, Term)):
+                    continue
+                n += 1
+                tag = s_.mem.get((item, 'provider'))
+                if not (isinstance(tag, Int) and tag.v == OSSL):
+                    bad += 1
+                    chk.add(Finding(rulename, unit, fn, 'tag',
+                                    'a key object made by the OpenSSL importer is tagged item->provider = %r (not the constant '
+                                    'JWT_CRYPTO_OPS_OPENSSL): the shared release routine, which tests that tag, leaves its EVP_PKEY and PEM behind'
+                                    % (tag,)))
+                    break
+    chk.rule(rulename, 'asymmetric importers tag the items they fill with the constant the shared release routine tests', n, bad, floor=3)
+
+
 WIDE = ('size_t', 'unsigned long', 'long', 'unsigned long long', 'long long', 'uint64_t', 'int64_t', 'ssize_t', 'uintptr_t', 'intptr_t')
 
 
@@ -497,6 +525,7 @@ def run(chk, prog, tier):
     chk.guard('free_bad counter', check_counters, chk, prog, env, model, dtor)
     chk.guard('lookups', check_lookups, chk, prog, env, model, dtor)
     chk.guard('index walk', check_index_walk, chk, prog, env, model, dtor)
+    chk.guard('provider tag', check_provider_tag, chk, prog, env, model)
     chk.assumptions += ['list semantics under arbitrary operation sequences and the heap-shape invariants of ll.h are NOT decided (loops over '
                         'runtime data); the index walk is decided as a per-iteration shape (start 0, step 1, full-width compare), not by induction']
     return chk.finish(
